@@ -4,6 +4,6 @@
    primitive floats.  N, Z, positive stay the extracted inductive types. *)
 From Coq Require Extraction.
 From Coq Require Import ExtrOcamlBasic ExtrOCamlFloats ExtrOCamlInt63.
-From EF Require Import Gen.Tables Model.Base Model.Lexer Model.Ast Model.Parser Model.Value Model.Env Model.Reflect Model.Builtins Model.Code Model.Compiler Model.Optimizer Model.VM Model.Api Spec.Ops Spec.Eval Spec.ExecFun Spec.Moded Model.Verifier.
+From EF Require Import Gen.Tables Model.Base Model.Lexer Model.Ast Model.Parser Model.Value Model.Env Model.Reflect Model.Builtins Model.Code Model.Compiler Model.Optimizer Model.VM Model.Api Spec.Ops Spec.Eval Spec.ExecFun Spec.Moded Model.Verifier Model.OptSafe.
 Extraction Language OCaml.
-Extraction "model.ml" Lexer.lex Lexer.tokty_name Parser.parse_script Tables.max_depth Api.run_history Api.step Api.new_eval ExecFun.sblock ExecFun.collect_block Moded.well_moded Verifier.verify_program Value.hash_key Value.hash_put Builtins.utc_fields Value.inspect.
+Extraction "model.ml" Lexer.lex Lexer.tokty_name Parser.parse_script Tables.max_depth Api.run_history Api.step Api.new_eval ExecFun.sblock ExecFun.collect_block Moded.well_moded Verifier.verify_program OptSafe.optimize_program_safe Value.hash_key Value.hash_put Builtins.utc_fields Value.inspect.
